@@ -24,7 +24,7 @@ from comb_spec_searcher.exception import ExceededMaxtimeError, SpecificationNotF
 from comb_spec_searcher.strategies.rule import EquivalencePathRule, EquivalenceRule, ReverseRule, VerificationRule
 
 ID = "C19"
-QUICK_RUNS = 3000
+QUICK_RUNS = 6000
 CHUNK = 15
 THOROUGH_BUDGET_S = 900
 WATCHDOG = 90.0
